@@ -155,11 +155,20 @@ func buildLB(e *worlds.Env, forC11 bool) (*lbWorld, *lbSample) {
 		sample.Passive = fmt.Sprintf("fail_duration=%v max_fails=%d unhealthy_connection_count=%d", L.failDur, L.maxFails, L.uhcc)
 	}
 	L.active = tp.Prob(1, 3, "active")
+	// the active checks may belong to another handler that dials the same addresses (the peers,
+	// and with them the verdict of the probes, are shared process-wide): the handler under test
+	// then has no active checks of its own but must honour the shared verdict
+	monitorOnly := L.active && tp.Prob(1, 4, "probes-by-another-handler")
 	if L.active {
 		L.hInt = time.Duration(tp.Pick("h-int-ms", 500, 100, 2000)) * time.Millisecond
 		L.hTmo = time.Duration(tp.Pick("h-tmo-ms", 300, 100, 1000)) * time.Millisecond
-		hc.Active = &l4proxy.ActiveHealthChecks{Interval: caddy.Duration(L.hInt), Timeout: caddy.Duration(L.hTmo)}
+		if !monitorOnly {
+			hc.Active = &l4proxy.ActiveHealthChecks{Interval: caddy.Duration(L.hInt), Timeout: caddy.Duration(L.hTmo)}
+		}
 		sample.Active = fmt.Sprintf("interval=%v timeout=%v", L.hInt, L.hTmo)
+		if monitorOnly {
+			sample.Active += " (run by a second handler on the same addresses)"
+		}
 	}
 	if tp.Prob(1, 3, "max-conns") {
 		L.maxConns = tp.Pick("max-conns-n", 1, 2, 3)
@@ -174,7 +183,7 @@ func buildLB(e *worlds.Env, forC11 bool) (*lbWorld, *lbSample) {
 	}
 	sample.Retry = fmt.Sprintf("try_duration=%v try_interval=%v", L.tryDur, L.tryInt)
 	L.h = &l4proxy.Handler{Upstreams: L.pool, LoadBalancing: &l4proxy.LoadBalancing{SelectionPolicy: L.rs, TryDuration: caddy.Duration(L.tryDur), TryInterval: caddy.Duration(L.tryInt)}}
-	if usePassive || L.active {
+	if usePassive || (L.active && !monitorOnly) {
 		L.h.HealthChecks = hc
 	}
 	ctx1, cancel1 := caddy.NewContext(caddy.Context{Context: context.Background()})
@@ -193,6 +202,19 @@ func buildLB(e *worlds.Env, forC11 bool) (*lbWorld, *lbSample) {
 		L.maxConns = L.uhcc // unhealthy_connection_count acts as max_connections
 	}
 	e.S.OnCleanup(func() { _ = L.h.Cleanup() })
+	if monitorOnly {
+		var pool2 l4proxy.UpstreamPool
+		for _, u := range L.pool {
+			pool2 = append(pool2, &l4proxy.Upstream{Dial: u.Dial})
+		}
+		mon := &l4proxy.Handler{Upstreams: pool2, HealthChecks: &l4proxy.HealthChecks{Active: &l4proxy.ActiveHealthChecks{Interval: caddy.Duration(L.hInt), Timeout: caddy.Duration(L.hTmo)}}}
+		ctxm, cancelm := caddy.NewContext(caddy.Context{Context: context.Background()})
+		if err := mon.Provision(ctxm); err != nil {
+			panic(err)
+		}
+		mon.VerifSetLogger(e.Log)
+		e.S.OnCleanup(func() { cancelm(); _ = mon.Cleanup() })
+	}
 	sw := &swapHandler{}
 	sw.cur.Store(L.h)
 	routes := layer4.RouteList{layer4.VerifNewRoute(nil, []layer4.NextHandler{sw})}
